@@ -16,7 +16,7 @@ PROP = dict(
          "one frame; states = distinct (configuration, letter, prefix length, private-state hash) after each frame; transitions = process() calls "
          "executed; traces_validated_against_impl = histories executed",
     bounds=dict(quick="comp: k = 11 (1024 framings) x 5 letters x all configurations; pair: 40 granules, all ~1600 (p,f,tail) histories, light "
-                      "configurations; iso: 2 instances x 20 interleavings all configurations, 3 instances x 1680 for every 2nd; copy: 7 histories with a copy-constructed / copy-assigned processor (source destroyed, left alone, fed other data, interleaved) for every copyable configuration, accepted if ALL calls follow value semantics or ALL follow handle semantics, both computed on the implementation; long: a stream of > 70 000 samples under 5 framings (boundary at 65 535/65 536, one frame longer than 65 536, uniform ~1000, alternating 1/64 granules) for the first configuration of every processor kind",
+                      "configurations; iso: 2 instances x 20 interleavings all configurations, 3 instances x 1680 for every 2nd; copy: 9 histories with a copy-constructed / copy-assigned / move-constructed processor (source destroyed, left alone, fed other data, interleaved) for every copyable configuration, accepted if ALL calls follow value semantics or ALL follow handle semantics, both computed on the implementation; long: a stream of > 70 000 samples under 5 framings (boundary at 65 535/65 536, one frame longer than 65 536, uniform ~1000, alternating 1/64 granules) for the first configuration of every processor kind",
                 thorough="comp: k = 16 (32768 framings); pair: 128 granules (~16000 histories) for all configurations; iso: 3 instances for all; long: all configurations"),
     deadline=dict(quick=150, thorough=3000),
     passes=[dict(name="main", flags=["-fno-access-control"])],
